@@ -1,7 +1,7 @@
 (* C19 — the browser IDE's file API stays inside the project and never loses a concurrent edit.
    Pinned statements over Model/WebIde.v. *)
 From Coq Require Import List Bool Arith NArith.
-From TP Require Import Model.WebIde Proofs.C19Proofs.
+From TP Require Import Model.WebIde Model.WebIdeDocs Proofs.C19Proofs.
 Import ListNotations.
 
 (* every path string that normalisation accepts is a non-empty list of plain names: none is
@@ -52,6 +52,16 @@ Theorem file_is_last_successful_write : forall ops st, forallb internal ops = tr
 Proof. exact disk_is_last_success_l. Qed.
 Theorem versions_never_decrease : forall st o, cur_version st <= cur_version (fst (wstep st o)).
 Proof. exact version_monotone_l. Qed.
+(* several documents: renaming a directory touches only that directory's documents; work on one path touches only that path *)
+Theorem rename_dir_touches_only_its_directory : forall s d d' k, fst k <> d -> fst k <> d' ->
+  klookup (md_docs (fst (mstep s (MRenameDir d d')))) k = klookup (md_docs s) k /\
+  klookup (md_disk (fst (mstep s (MRenameDir d d')))) k = klookup (md_disk s) k.
+Proof. exact rename_dir_frame_l. Qed.
+Theorem one_path_touches_only_its_document : forall s k k' e c, key_eqb k k' = false ->
+  klookup (md_docs (fst (mstep s (MOpen k')))) k = klookup (md_docs s) k /\
+  klookup (md_docs (fst (mstep s (MApply k' e c)))) k = klookup (md_docs s) k /\
+  klookup (md_docs (fst (mstep s (MExternal k' c)))) k = klookup (md_docs s) k.
+Proof. exact single_path_frame_l. Qed.
 Theorem c19_nonvacuous :
   snd (wrun (w_init 10) [WRead 1; WOpenCommit 1; WRead 2; WOpenCommit 2; WRead 1; WRead 2; WCommit 1 1 20; WCommit 2 1 30;
                          WRead 2; WOpenCommit 2; WRead 2; WCommit 2 4 30; WExternal 40; WRead 1; WCommit 1 5 50]) =
@@ -67,3 +77,5 @@ Print Assumptions write_based_on_latest.
 Print Assumptions guessed_future_version_refuted.
 Print Assumptions file_is_last_successful_write.
 Print Assumptions versions_never_decrease.
+Print Assumptions rename_dir_touches_only_its_directory.
+Print Assumptions one_path_touches_only_its_document.
